@@ -212,7 +212,7 @@ pub fn scenarios() -> Vec<Scn> {
     history_scn("c08/M{post a}||T{abort}", vec![vec![Post(1)], vec![Abort]], Some(3), Some(4)),
     history_scn("c08/M{post a,post b} no abort", vec![vec![Post(1), Post(2)]], Some(3), Some(5)),
     history_scn("c08/T1{post a,post b}||T2{post c}", vec![vec![], vec![Post(1), Post(2)], vec![Post(3)]], Some(2), Some(3)),
-    history_scn("c08/T1{post a}||T2{post b}||T3{abort}", vec![vec![], vec![Post(1)], vec![Post(2)], vec![Abort]], Some(2), Some(3)),
+    history_scn("c08/T1{post a}||T2{post b}||T3{abort}", vec![vec![], vec![Post(1)], vec![Post(2)], vec![Abort]], Some(1), Some(2)),
     history_scn("c08/task a posts b", vec![vec![PostPosting(1, 2)]], Some(3), Some(5)),
     history_scn("c08/task a aborts, b queued", vec![vec![PostAborting(1), Post(2)]], Some(3), Some(5)),
     history_scn("c08/M{post a,abort,post b}", vec![vec![Post(1), Abort, Post(2)]], Some(3), Some(4)),
